@@ -347,9 +347,13 @@ func (h *MultiHandler) abort(err error, culprits ...party.ID) {
 
 // Stop cancels the current execution of the protocol, and alerts the other users.
 func (h *MultiHandler) Stop() {
+	h.mtx.Lock()
+	defer h.mtx.Unlock()
+	// nothing to do if the protocol already finished or aborted (the out channel is already closed)
 	if h.err != nil || h.result != nil {
-		h.abort(errors.New("aborted by user"), h.currentRound.SelfID())
+		return
 	}
+	h.abort(errors.New("aborted by user"), h.currentRound.SelfID())
 }
 
 func expectsNormalMessage(r round.Session) bool {
